@@ -46,7 +46,8 @@ CONSTANTS
   TokLen     \* max tokens per text input (1..4)
 
 BugNames == {"NegLenPanic", "PeerSizedAlloc", "CountSpin", "CountAlloc", "Recursion",
-             "CapIgnored", "SecretBypassesCap", "LoneQuotePanic", "FrameLenUnchecked"}
+             "CapIgnored", "SecretBypassesCap", "SecretNotCharged", "LoneQuotePanic",
+             "FrameLenUnchecked"}
 
 ASSUME Bug \subseteq BugNames
 
@@ -86,6 +87,7 @@ SizeVal(n) ==
     [] n = "capM1" -> CapU - 1 [] n = "cap" -> CapU [] n = "capP1" -> CapU + 1
     [] n = "big" -> BigU [] n = "max" -> FrameMaxU [] n = "maxP1" -> FrameMaxU + 1
     [] n = "some" -> SupU [] n = "none" -> 0 [] n = "half" -> CapU \div 2 + 1
+    [] n = "p60" -> (3 * CapU) \div 5      \* fits the cap alone, two of them do not
     [] OTHER -> 0
 
 -----------------------------------------------------------------------------
@@ -209,6 +211,37 @@ TypeSeqs(mode) ==
       ty(c) == It("str", c, "small", "T", pfx) IN
   {<<>>, <<ty("type"), ty("type")>>, <<ty("badtype"), ty("type")>>}
 
+(* Budget ACCUMULATION: expressions and marker+secret pairs of about 0.6 x cap.  *)
+(* Each fits the remaining budget when it is read alone; from the second one   *)
+(* on the cumulative size exceeds the cap, so a bounded reader must stop and    *)
+(* fail there.  Sequences of 2..AccumMax units, and a "rep" item standing for   *)
+(* RepN repetitions of one unit (k = "rep", c = "sec" | "ord").  The count is   *)
+(* the true number of units ("units") or huge.                                  *)
+AccumMax == 4
+RepN == 16
+AccumUnits(mode) ==
+  LET pfx == IF mode = "plain" THEN "-" ELSE "match" IN
+  {<<It("str", "marker", "small", "T", pfx), It("str", "ok", "p60", "T", pfx)>>,
+   <<It("str", "ok", "p60", "T", pfx)>>}
+RECURSIVE AccumSeqs(_, _)
+AccumSeqs(mode, k) == IF k = 0 THEN {<<>>}
+                      ELSE {s \o u : s \in AccumSeqs(mode, k - 1), u \in AccumUnits(mode)}
+AccumBodies(mode) ==
+  LET pfx == IF mode = "plain" THEN "-" ELSE "match"
+      ty == It("str", "type", "small", "T", pfx)
+      reps == {<<It("rep", c, "p60", "r16", pfx)>> : c \in {"sec", "ord"}}
+      seqs == UNION {AccumSeqs(mode, k) : k \in 2..AccumMax} \cup reps
+                \cup {u \o r : u \in AccumUnits(mode), r \in reps}
+  IN {<<It("int", cnt, "-", "-", "-")>> \o e \o t :
+        cnt \in {"units", "i32max"}, e \in seqs, t \in {<<>>, <<ty, ty>>}}
+
+RECURSIVE SumUnits(_, _)
+SumUnits(items, i) ==   \* expression units among the first i items
+  IF i = 0 THEN 0
+  ELSE SumUnits(items, i - 1) +
+       (IF items[i].k = "rep" THEN RepN
+        ELSE IF items[i].k = "str" /\ items[i].c \notin {"marker", "type", "badtype"} THEN 1 ELSE 0)
+
 AdBodies(cap, mode) ==
   LET u1 == ExprUnits(cap, mode, TRUE)
       u2 == ExprUnits(cap, mode, FALSE)
@@ -246,7 +279,8 @@ ProgInputs(ep, mode) ==
       nOps == Cardinality({j \in 1..Len(prog) : prog[j].o \in {"int", "str", "bytes", "rest"}})
   IN IF isAd
      THEN LET capk == (CHOOSE j \in 1..Len(prog) : prog[j].o = "exprs")
-              bodies == AdBodies(prog[capk].cap, mode) IN
+              bodies == AdBodies(prog[capk].cap, mode)
+                          \cup (IF prog[capk].cap = "budget" THEN AccumBodies(mode) ELSE {}) IN
           IF prog[1].role = "cmd"
           THEN {<<c>> \o b : c \in IntItems("cmd"), b \in bodies} \cup {<<>>}
           ELSE bodies \cup {<<>>}
@@ -424,7 +458,8 @@ Enc == scn.mode = "enc"
 CutHere == scn.cut /\ IsLast
 
 \* reading one string item under a cap kind; cap value in units (or -1 = uncapped)
-CapOf(kind) == CASE kind = "cap" -> CapU [] kind = "budget" -> budget [] OTHER -> -1
+\* "budgetfree": capped by the remaining budget but not charged to it (Bug SecretNotCharged)
+CapOf(kind) == CASE kind = "cap" -> CapU [] kind \in {"budget", "budgetfree"} -> budget [] OTHER -> -1
 
 StrRead(it, kind, advance) ==
   LET body == SizeVal(it.n)
@@ -533,7 +568,10 @@ ProgStep ==
                                       [] op.role = "len" -> NumVal(Item.c, SupU)
                                       [] Item.c = "one" -> 1 [] Item.c = "neg1" -> -1
                                       [] OTHER -> 0)
-                       /\ left' = (IF op.role = "count" THEN NumVal(Item.c, 2) ELSE left)
+                       /\ left' = (IF op.role = "count"
+                                   THEN (IF Item.c = "units" THEN SumUnits(scn.items, Len(scn.items))
+                                         ELSE NumVal(Item.c, 2))
+                                   ELSE left)
                        /\ IF op.role = "cmd" /\ Item.c = "other"
                           THEN End("error", FALSE) /\ Keep(<<pc, ii>>)
                           ELSE IF op.role = "flag" /\ Item.c # "ok"
@@ -555,12 +593,32 @@ ProgStep ==
                   THEN /\ pc' = pc + 1 /\ Use(0, 0, 1) /\ left' = 0
                        /\ Keep(<<ii, budget, capx, status, strict>>)
                   ELSE LET it == Item
-                           secretKind == IF "SecretBypassesCap" \in Bug THEN "none" ELSE op.cap
+                           secretKind == IF "SecretBypassesCap" \in Bug THEN "none"
+                                         ELSE IF "SecretNotCharged" \in Bug /\ op.cap = "budget" THEN "budgetfree"
+                                         ELSE op.cap
                            \* SkipClassAdRaw counts wire strings and does not know the marker;
                            \* whether it should is not C13's question (it stays total and bounded)
                            knowsMarker == scn.ep # "SkipClassAdRaw" IN
+                       IF it.k = "rep"
+                       THEN \* RepN units (marker + secret, or one expression) of the same size
+                            LET sec == it.c = "sec"
+                                u == SizeVal(it.n) + 1
+                                mk == IF sec THEN SmallU + 1 ELSE 0
+                                pf == IF Enc THEN IntU * (IF sec THEN 2 ELSE 1) ELSE 0
+                                charge == IF sec /\ "SecretNotCharged" \in Bug THEN mk ELSE u + mk
+                                fit == IF CapOf(op.cap) < 0 \/ "SecretBypassesCap" \in Bug THEN RepN
+                                       ELSE Min(RepN, Max(budget, 0) \div charge) IN
+                            IF fit >= RepN
+                            THEN /\ Use(RepN * (u + mk + pf), 2 * RepN * u, RepN)
+                                 /\ left' = left - RepN /\ ii' = ii + 1 /\ pc' = pc
+                                 /\ budget' = IF op.cap = "budget" THEN budget - RepN * charge ELSE budget
+                                 /\ Keep(<<status, strict, capx>>)
+                            ELSE /\ Use(fit * (u + mk + pf) + mk + pf
+                                          + Min(u, Max(budget - fit * charge - mk, 0) + CapSlack),
+                                        2 * (fit + 1) * u, fit + 1)
+                                 /\ End("error", TRUE) /\ capx' = TRUE /\ Keep(<<budget, pc, ii, left>>)
                        \* a marker announces that the real expression follows as a secret string
-                       IF knowsMarker /\ ii > 1 /\ scn.items[ii - 1].c = "marker" /\ scn.items[ii - 1].k = "str"
+                       ELSE IF knowsMarker /\ ii > 1 /\ scn.items[ii - 1].c = "marker" /\ scn.items[ii - 1].k = "str"
                           /\ it.c # "type" /\ it.c # "badtype"
                        THEN StrRead(it, secretKind, (ii' = ii + 1 /\ pc' = pc)) /\ left' = left - 1
                        ELSE IF knowsMarker /\ it.c = "marker"
